@@ -199,8 +199,8 @@ def check_chunk(chunk):
             distinct.add(("+".join(spec["features"]), status, tuple(sorted({p[0] for p in problems}))))
             for kind, msg in problems:
                 key = f"C34|{kind}|{'+'.join(spec['features'])}"
-                if kind == "input-value-differs" and any(f.startswith("merge") for f in spec["features"]):
-                    key = "C34|input-value-differs|cause=linkMerge-step-value-recorded-as-the-workflow-input"
+                if kind == "input-value-differs" and any(f.startswith(("merge", "vf_")) for f in spec["features"]):
+                    key = "C34|input-value-differs|cause=transformed-step-input-value-recorded-as-the-workflow-input"
                 if kind == "output-value-differs" and "null" in msg.split("is recorded as")[0]:
                     key = "C34|output-value-differs|cause=null-elements-of-an-output-array-dropped"
                 fails.setdefault(key, (key, f"features {spec['features']}: {msg}", {"items": [spec]}))
